@@ -276,7 +276,7 @@ theorem ncMath_rotOf_setRot (st : PState) (r : Rot) (code : Str) :
 
 theorem ncMath_G_setRot (nroot : Nat) (st : PState) (r : Rot) (h : G T nroot st)
     (hr : r.inl ≠ [] ∧ r.disp ≠ [] ∧ r.chg ≠ []) : G T nroot (setRot st r) := by
-  refine ⟨⟨h.flows, h.macros, h.envs, h.gloss, h.items, h.langs, ?_, ?_⟩, h.root, h.inFrame⟩
+  refine ⟨⟨h.flows, h.macros, h.envs, h.gloss, h.items, h.langs, ⟨?_, ?_⟩, h.unk⟩, h.root, h.inFrame⟩
   · intro l hl
     rw [ncMath_rotOf_setRot]
     exact h.rots.1 l hl
